@@ -6,6 +6,7 @@
 use std::rc::Rc;
 
 use super::admin_common::{header, make_cas, run_case, step, Ca, View, World};
+use super::admin_handlers::run_case_h;
 use crate::proto::{parse_cases, Out};
 use crate::rng::Rng;
 use crate::Args;
@@ -289,6 +290,30 @@ fn gen_case(out: &mut Out, cas: &Rc<Vec<Ca>>, id: u64, seed_rng: &mut Rng, prop:
     out.stat(if nt { "cases_nontrivial" } else { "cases_trivial" }, 1);
 }
 
+/// turn a generated op list into one the handler-level path supports: no ACL / group / network
+/// writes (no Write interaction / Ethernet device there), admin subject = the CASE peer (the real
+/// access check runs), timeouts and ticks chosen so that no deadline falls within two seconds of a
+/// tick boundary (the real 1-second poll and the few virtual milliseconds every exchange costs)
+fn h_compat(ops: &[String]) -> Vec<String> {
+    let mut res = Vec::new();
+    for op in ops {
+        let w: Vec<&str> = op.split_whitespace().collect();
+        let n = |i: usize| -> u64 { w.get(i).and_then(|x| x.parse().ok()).unwrap_or(0) };
+        match w.first().copied().unwrap_or("") {
+            "acl" | "grp" | "net" | "rmnet" | "freset" | "corrupt" | "poll" => {}
+            "arm" => {
+                let t = if n(2) == 0 { 0 } else if n(2) < 100 { 61 } else { 122 };
+                res.push(format!("arm {} {}", n(1), t));
+            }
+            "tick" => res.push(format!("tick {}", if n(1) < 30 { 7 } else if n(1) < 250 { 203 } else { 504 })),
+            "cest" => res.push(format!("cest {} 100 {}", n(1), n(3))),
+            "addnoc" => res.push(format!("addnoc {} {} {} {} {} {}", n(1), n(2), n(3), n(4), if n(5) == 0 { 0 } else { 100 }, n(6))),
+            _ => res.push(op.clone()),
+        }
+    }
+    res
+}
+
 pub fn gen(prop: &'static str, a: &Args) -> String {
     let mut r = Rng::new(a.seed ^ (prop.as_bytes()[2] as u64) << 32);
     let mut out = Out::default();
@@ -300,9 +325,20 @@ pub fn gen(prop: &'static str, a: &Args) -> String {
     };
     out.buf.push_str(&format!("#rule {}\n", rule));
     let n_cases = if a.thorough { 40000 } else { 3000 };
+    let h_every = if a.thorough { 20 } else { 15 };
     for id in 0..n_cases {
         let len = if a.thorough { r.range(8, 70) } else { r.range(8, 40) } as usize;
+        let mark = out.buf.len();
         gen_case(&mut out, &cas, id, &mut r, prop, len);
+        if id % h_every == 0 {
+            // the same history (made handler-compatible) through the REAL cluster handlers
+            let text = out.buf[mark..].to_string();
+            if let Some(c) = parse_cases(&text).into_iter().next() {
+                let ops = h_compat(&c.ops);
+                run_case_h(&mut out, &cas, &crate::proto::Case { id: 1_000_000 + id, kind: String::new(), ops });
+                out.stat("cases_handler_level", 1);
+            }
+        }
     }
     out.finish()
 }
@@ -312,7 +348,11 @@ pub fn replay(a: &Args) -> String {
     let mut out = Out::default();
     let cas = make_cas();
     for c in parse_cases(&text) {
-        run_case(&mut out, &cas, &c);
+        if c.kind.contains("h=1") {
+            run_case_h(&mut out, &cas, &c);
+        } else {
+            run_case(&mut out, &cas, &c);
+        }
     }
     out.finish()
 }
